@@ -364,6 +364,14 @@ func lookup(fr *frame, instr *ssa.Lookup, x, idx value) value {
 // numeric datatypes and strings.  Both operands must have identical
 // dynamic type.
 func binop(fr *frame, op token.Token, t types.Type, x, y value) value {
+	if fx, ok := x.(symFloat); ok {
+		return symFloatBinop(fr, op, fx, y)
+	}
+	if fy, ok := y.(symFloat); ok {
+		if cx, ok := x.(float64); ok && cx == float64(int64(cx)) {
+			return symFloatBinop(fr, op, symFloat{num: fr.i.run.ctx.Const(64, uint64(int64(cx)))}, fy)
+		}
+	}
 	switch x.(type) {
 	case sym, symString:
 		return symBinop(fr, op, t, x, y)
@@ -1231,6 +1239,14 @@ func convFr(fr *frame, t_dst, t_src types.Type, x value) value {
 	ut_src := t_src.Underlying()
 	ut_dst := t_dst.Underlying()
 	switch sx := x.(type) {
+	case symFloat:
+		if b, ok := ut_dst.(*types.Basic); ok && b.Info()&types.IsInteger != 0 {
+			t := fr.i.run.floatToTermInt(sx)
+			return mkScalar(fr.i.run.ctx.Resize(t, kindWidth(b.Kind()), true), b.Kind())
+		}
+		if b, ok := ut_dst.(*types.Basic); ok && b.Kind() == types.Float64 {
+			return sx
+		}
 	case sym:
 		if b, ok := ut_dst.(*types.Basic); ok {
 			return symConvScalar(fr, b.Kind(), sx)
@@ -1598,4 +1614,29 @@ func fandbits[F floaty](x, y F) F {
 		*(*uint64)(unsafe.Pointer(&x)) &= *(*uint64)(unsafe.Pointer(&y))
 	}
 	return x
+}
+
+func symFloatBinop(fr *frame, op token.Token, x symFloat, y value) value {
+	c := fr.i.run.ctx
+	var fy symFloat
+	switch yv := y.(type) {
+	case symFloat:
+		fy = yv
+	case float64:
+		if yv != float64(int64(yv)) {
+			fr.i.run.abort("unsupported", "symbolic float arithmetic with a non-integer constant")
+		}
+		fy = symFloat{num: c.Const(64, uint64(int64(yv)))}
+	default:
+		fr.i.run.abort("unsupported", fmt.Sprintf("symbolic float %s %T", op, y))
+	}
+	if op == token.QUO && x.den == nil && fy.den == nil {
+		zero := c.Eq(fy.num, c.Const(64, 0))
+		if fr.i.run.decide(zero, "float-div-by-zero") {
+			fr.i.run.abort("unsupported", "symbolic float division by zero (Inf/NaN not modelled)")
+		}
+		return symFloat{num: x.num, den: fy.num}
+	}
+	fr.i.run.abort("unsupported", "symbolic float operation "+op.String())
+	return nil
 }
